@@ -430,7 +430,15 @@ func (E *Engine) strLen(s *Term) *Term {
 	tb.DeclFunc("strlen", []Sort{"Str"}, SInt)
 	x := tb.BVar("s", "Str")
 	tb.AddAxiom("strlen-range", tb.Forall([]*Term{x}, tb.And(tb.Cmp("<=", tb.Int(0), tb.App("strlen", SInt, x)), tb.Cmp("<=", tb.App("strlen", SInt, x), tb.IntStr("9223372036854775807")))), "strlen")
-	return tb.UF("strlen", SInt, s)
+	// the empty string is the only string of length 0 (ground instance for this string)
+	r := tb.UF("strlen", SInt, s)
+	if !s.bound {
+		e := E.strLit("")
+		if s != e {
+			tb.AddTermAxiom(fmt.Sprintf("strlen0#%d", s.id), tb.Eq(tb.Eq(r, tb.Int(0)), tb.Eq(s, e)), r)
+		}
+	}
+	return r
 }
 
 func (E *Engine) strConcat(a, b *Term) *Term {
